@@ -452,6 +452,11 @@ func isTerminatingPod(svc *api.Service, pod *api.Pod) bool {
 }
 
 func (c *c) GetTerminatingPods(service *api.Service, track []convtypes.TrackingRef) ([]*api.Pod, error) {
+	if len(service.Spec.Selector) == 0 {
+		// a service without selector does not select any pod,
+		// an empty label selector would match all of them
+		return nil, nil
+	}
 	selector, err := buildLabelSelector(service.Spec.Selector)
 	if err != nil {
 		return nil, err
